@@ -6,6 +6,7 @@ import Xc.Gen.DesTables
 import Xc.Lemmas.Feistel
 import Xc.Lemmas.DesInv
 import Xc.Lemmas.DesRound
+import Xc.Lemmas.DesKs
 namespace Xc.C17
 open Xc Xc.Spec.DesT
 
@@ -112,5 +113,40 @@ theorem C17_pc2_is_fips (t0 t1 : UInt32) :
 
 /-- the FIPS cipher function is not trivially constant: a concrete value (R = 0, K = 0: every S-box sees the group 000000) -/
 example : fipsF 0 0 0 0 = 0xd8d8dbbc := by decide +kernel
+
+
+/-- **the key schedule is FIPS 46-3's KS**: for every key and every round r < 16 the round key stored by `des_set_key` is PC-2 of the
+    halves C0, D0 = PC-1(key) rotated left by the cumulative published shift -/
+theorem C17_key_schedule_is_fips (key : Bytes) (r : Nat) (hr : r < 16) :
+    ((Des.setKey key).1[r]!, (Des.setKey key).2[r]!) = ksFips (be32 key 0, be32 key 4) r :=
+  Des.setKey_fips key r hr
+
+/-- **`des_set_key; des_set_salt; des_crypt_block` is DES as FIPS 46-3 defines it** (extended by crypt(3)'s salt and iteration count):
+    KS, IP, `count` × (sixteen rounds `L' = R, R' = L ⊕ P(S(E(R) ⊕ K))` and the exchange of the halves), IP⁻¹ - everything on the right-hand
+    side is written from the FIPS tables (Spec/DesTables.lean), for every 8-byte key, salt, count, direction and 8-byte block -/
+theorem C17_des_is_fips (key : Bytes) (salt : Nat) (x : Bytes) (count : Nat) (decrypt : Bool) :
+    Des.cryptBlock (Des.mkCtx key salt) x count decrypt =
+      toBe32 (Des.blockFips (Des.saltBits salt) (Des.keysFips (be32 key 0, be32 key 4) decrypt) (if count = 0 then 1 else count) (be32 x 0, be32 x 4)).1 ++
+      toBe32 (Des.blockFips (Des.saltBits salt) (Des.keysFips (be32 key 0, be32 key 4) decrypt) (if count = 0 then 1 else count) (be32 x 0, be32 x 4)).2 :=
+  Des.des_fips key salt x count decrypt
+
+/-- the obsolete API's core - `setkey` then `encrypt` on the packed key and block: salt 0, one pass - is plain FIPS 46-3 DES, in both directions -/
+theorem C17_setkey_encrypt_is_fips (key x : Bytes) (decrypt : Bool) :
+    Des.cryptBlock (Des.mkCtx key 0) x 1 decrypt =
+      toBe32 (Des.blockFips 0 (Des.keysFips (be32 key 0, be32 key 4) decrypt) 1 (be32 x 0, be32 x 4)).1 ++
+      toBe32 (Des.blockFips 0 (Des.keysFips (be32 key 0, be32 key 4) decrypt) 1 (be32 x 0, be32 x 4)).2 :=
+  Des.setkey_encrypt_fips key x decrypt
+
+/-- the core of traditional crypt(3) (`des_gen_hash`, used by descrypt, bigcrypt and bsdicrypt): `count` DES encryptions of the zero block
+    under the salt's exchange of E-bits -/
+theorem C17_des_hash_is_fips (key : Bytes) (salt count : Nat) :
+    Des.desHash key salt count =
+      toBe32 (Des.blockFips (Des.saltBits salt) (Des.keysFips (be32 key 0, be32 key 4) false) (if count = 0 then 1 else count) (0, 0)).1 ++
+      toBe32 (Des.blockFips (Des.saltBits salt) (Des.keysFips (be32 key 0, be32 key 4) false) (if count = 0 then 1 else count) (0, 0)).2 :=
+  Des.desHash_fips key salt count
+
+/-- the classic test vector through the FIPS-side definition alone: key 133457799BBCDFF1, block 0123456789ABCDEF -> 85E813540F0AB405 -/
+example : (let p := Des.blockFips 0 (Des.keysFips (0x13345779, 0x9bbcdff1) false) 1 (0x01234567, 0x89abcdef); (p.1, p.2)) = (0x85e81354, 0x0f0ab405) := by
+  decide +kernel
 
 end Xc.C17
